@@ -341,7 +341,16 @@ func clientFromCache(c *engine.Ctx, r *rand.Rand, cfg *config.Config, evals *int
 	}
 	for v := 1; v <= 4; v++ {
 		creds := []ccachefmt.Credential{mk([]string{"krbtgt", "R.COM"}, "R.COM", now+36000), conf, noKvno(mk([]string{"HTTP", "a.r.com"}, "R.COM", now+3600)), mk([]string{"host", "b.r.com"}, "R.COM", now-10),
-			mk([]string{"cifs", "c.r.com"}, "R.COM", now+7200), noKvno(mk([]string{"ldap", "d.r.com"}, "R.COM", now+7200))}
+			mk([]string{"cifs", "c.r.com"}, "R.COM", now+7200), noKvno(mk([]string{"ldap", "d.r.com"}, "R.COM", now+7200)),
+			// the same services written again later (what a renewal or a re-acquisition appends): the cache's
+			// current credential for a service is the one written last, whichever lives longer
+			mk([]string{"cifs", "c.r.com"}, "R.COM", now+3600), mk([]string{"ldap", "d.r.com"}, "R.COM", now+9000), mk([]string{"krbtgt", "R.COM"}, "R.COM", now+30000)}
+		last := map[string]int{}
+		for i, cr := range creds {
+			if !cr.IsConfig() {
+				last[strings.Join(cr.Server.Components, "/")] = i
+			}
+		}
 		m := ccachefmt.CCache{Version: v, Default: dp, Creds: creds}
 		*evals++
 		rec := map[string]interface{}{"version": v, "what": "NewFromCCache"}
@@ -362,6 +371,9 @@ func clientFromCache(c *engine.Ctx, r *rand.Rand, cfg *config.Config, evals *int
 				continue
 			}
 			spn := strings.Join(cr.Server.Components, "/")
+			if last[spn] != i {
+				continue // superseded by a credential written later
+			}
 			tkt, key, ok := cl.GetCachedTicket(spn)
 			valid := cr.EndTime > now
 			if !valid {
